@@ -193,6 +193,19 @@ class Prov:
                     out += (lane[s8:] + [Z] * s8) if m.group(2) == "r" else ([Z] * s8 + lane[:nb - s8])
                 return out
             return self.lanewise(n, [A], bits)
+        m = re.match(r"^_mm(256)?_b?s(r|l)li_si(128|256)$", n)
+        if m and a:
+            # byte shift of each 128-bit lane by the const-generic count
+            A = V(a[0])
+            sh = cg[0] if cg else None
+            if A is None or sh is None:
+                return None
+            sh = min(int(sh), 16)
+            out = []
+            for h in range(0, len(A), 16):
+                lane = A[h:h + 16]
+                out += (lane[sh:] + [Z] * sh) if m.group(2) == "r" else ([Z] * sh + lane[:16 - sh])
+            return out
         m = re.match(r"^_mm(256)?_blendv_epi8$", n)
         if m and len(a) == 3:
             A, B, M = V(a[0]), V(a[1]), V(a[2])
